@@ -37,7 +37,13 @@ Value& TABExpression::value(Context & ctx) const
     return ctx.allocate(Value(Value::type_no_type.levelUp()));
   Value& a0 = _args[0]->value(ctx);
   if (a0.isNull())
-    return ctx.allocate(Value(_args[1]->value(ctx).type().levelUp()));
+  {
+    /* a null table of the type that the item would give */
+    const Type item = _args[1]->value(ctx).type();
+    if (item.level() == TYPE_LEVEL_MAX - 1)
+      throw RuntimeError(EXC_RT_OUT_OF_DIMENSION);
+    return ctx.allocate(Value(item.levelUp()));
+  }
   Integer n = *a0.integer();
   if (n < 0)
     throw RuntimeError(EXC_RT_INDEX_RANGE_S, a0.toString().c_str());
